@@ -1,8 +1,17 @@
 package main
 
 import (
+	"sync"
+
+	"context"
+	goelectrum "github.com/checksum0/go-electrum/electrum"
+	"github.com/elementsproject/peerswap/lwk"
+
 	"fmt"
+	"github.com/elementsproject/peerswap/txwatcher"
+	"os"
 	"strings"
+	"time"
 )
 
 // probes used while developing C09/C10 (kept as `psharness probe <name>`)
@@ -36,6 +45,98 @@ func cmdProbe(name string) {
 		}
 		b := newCtx(w)
 		fmt.Println("new swap-out on the same channel:", b.Step("new outSender btc"))
+	case "c18-csv-real":
+		// the same with the REAL BlockchainRpcTxWatcher (scripted RPC: the output is 1101 blocks deep)
+		rpc := &fakeRpc{}
+		rpc.set(rpcView{rpcHeight: 800000, txout: &txwatcher.TxOutResp{BestBlockHash: "match", Confirmations: 1}})
+		w.realBtcWatcher = txwatcher.NewBlockchainRpcTxWatcher(context.Background(), rpc, 3)
+		w.boot(true, true)
+		a := newCtx(w)
+		fmt.Println("swap-in, opening broadcast:", a.Step("new inSender btc"), a.Step("agree"), a.state())
+		rpc.set(rpcView{rpcHeight: 801100, txout: &txwatcher.TxOutResp{BestBlockHash: "match", Confirmations: 1101}})
+		done := make(chan string, 1)
+		go func() { done <- a.Step("cancel") }()
+		select {
+		case r := <-done:
+			fmt.Println("cancel handled:", r, a.state())
+		case <-time.After(3 * time.Second):
+			fmt.Println("cancel NOT handled after 3 s: the handler is blocked (deadlock)")
+			os.Exit(0)
+		}
+	case "c18-inversion":
+		// REAL watcher, REAL service.  The maker waits for the claim payment with its CSV watch registered.
+		// G2: the taker's cancel arrives: SendEvent (swap mutex held) -> WaitCsv -> AwaitCsvAction -> AddWaitForCsvTx,
+		//     which asks the node (not mature yet) and then needs the watcher's lock to register.
+		// G1: a block arrives with which the CSV matures: HandleCsvTx takes the watcher's lock, finds the output
+		//     mature and calls back into the swap (needs the swap mutex).
+		rpc := &fakeRpc{}
+		rpc.set(rpcView{rpcHeight: 800000, txout: &txwatcher.TxOutResp{BestBlockHash: "match", Confirmations: 1}})
+		rw := txwatcher.NewBlockchainRpcTxWatcher(context.Background(), rpc, 3)
+		w.realBtcWatcher = rw
+		w.boot(true, true)
+		a := newCtx(w)
+		fmt.Println("swap-in, opening broadcast:", a.Step("new inSender btc"), a.Step("agree"), a.state())
+		g2AtNode, g1Done, release := make(chan bool, 1), make(chan bool, 1), make(chan bool)
+		rpc.mu.Lock()
+		rpc.txOutHook = func(n int) (*txwatcher.TxOutResp, error) {
+			if n == 1 { // G2: AddWaitForCsvTx asks first
+				g2AtNode <- true
+				<-release
+				return &txwatcher.TxOutResp{Confirmations: 1007}, nil
+			}
+			return &txwatcher.TxOutResp{Confirmations: 1008}, nil // G1: the new block made it mature
+		}
+		rpc.mu.Unlock()
+		done := make(chan string, 1)
+		go func() { done <- a.Step("cancel") }()
+		<-g2AtNode
+		go func() { rw.HandleCsvTx(801008); g1Done <- true }()
+		time.Sleep(100 * time.Millisecond) // G1 is now inside the callback (or, unfixed, holds the watcher lock there)
+		close(release)
+		select {
+		case r := <-done:
+			<-g1Done
+			time.Sleep(50 * time.Millisecond)
+			fmt.Println("cancel handled:", r, "block handled; final state:", a.state())
+		case <-time.After(3 * time.Second):
+			fmt.Println("cancel NOT handled after 3 s: message handler and block handler wait for each other (deadlock)")
+			os.Exit(0)
+		}
+	case "c18-electrum":
+		// the same inversion with the REAL LWK/Electrum watcher: Update calls the observers (G1), a cancel is
+		// handled at the same time and registers a new CSV observer (G2)
+		fe := &fakeElectrum{headers: make(chan *goelectrum.SubscribeHeadersResult, 8)}
+		fe.headers <- &goelectrum.SubscribeHeadersResult{Height: 2000000}
+		lw, _ := lwk.NewElectrumTxWatcher(fe)
+		w.realLbtcWatcher = lw
+		w.boot(true, true)
+		if err := lw.StartWatchingTxs(); err != nil {
+			fmt.Println("start:", err)
+		}
+		a := newCtx(w)
+		fmt.Println("swap-in on Liquid, opening broadcast:", a.Step("new inSender lbtc"), a.Step("agree"), a.state())
+		rec, _ := w.store.inner.GetData(a.id)
+		txid := rec.Data.OpeningTxBroadcasted.TxId
+		g1AtServer, release := make(chan bool, 1), make(chan bool)
+		var once sync.Once
+		fe.histHook = func() ([]*goelectrum.GetMempoolResult, error) {
+			once.Do(func() { g1AtServer <- true; <-release })
+			return []*goelectrum.GetMempoolResult{{Hash: txid, Height: 2000001}}, nil
+		}
+		fe.headers <- &goelectrum.SubscribeHeadersResult{Height: 2010081} // G1: a block with which the CSV matures
+		<-g1AtServer
+		done := make(chan string, 1)
+		go func() { done <- a.Step("cancel") }() // G2
+		time.Sleep(100 * time.Millisecond)
+		close(release)
+		select {
+		case r := <-done:
+			time.Sleep(100 * time.Millisecond)
+			fmt.Println("cancel handled:", r, "final state:", a.state())
+		case <-time.After(3 * time.Second):
+			fmt.Println("cancel NOT handled after 3 s: header handler and message handler wait for each other (deadlock)")
+			os.Exit(0)
+		}
 	case "c09-id":
 		a := newCtx(w)
 		fmt.Println("incoming swap-out request:", a.Step("new outReceiver btc"), a.state())
